@@ -160,11 +160,16 @@ def run(line):
 
 def gen(rng, params):
     plain = b"abcdefghij 0123456789=>:-_"
-    def out():
-        lines = []
-        for _ in range(rng.randint(0, 3)):
-            lines.append(bytes(rng.choice(plain) for _ in range(rng.randint(0, 12))))
-        return b"\n".join(lines) + (b"\n" if rng.random() < 0.8 else b"")
+    def out(forbidden=(b"=> ", b"U-Boot> ", b"=>\n")):
+        # domain: look-alikes of the prompt are welcome, the complete prompt inside the output is not (the shell
+        # classes take it for the end of the command — outside C08 and C19 alike)
+        while True:
+            lines = []
+            for _ in range(rng.randint(0, 3)):
+                lines.append(bytes(rng.choice(plain) for _ in range(rng.randint(0, 12))))
+            o = b"\n".join(lines) + (b"\n" if rng.random() < 0.8 else b"")
+            if not any(f in o for f in forbidden) and not o.endswith(b"=>"):
+                return o
     if rng.random() < 0.3:
         # overlapping attachments, detached in any order
         import changen as g
